@@ -59,6 +59,7 @@ THEOREMS = [
     'C17_mixed_fractions_rejected',
     'C17_latopt_exact',
     'C17_latopt_malformed_rejected',
+    'C17_finished_run_is_clean',
 ]
 TRUSTED = [
     'hand-written model coq/C17/Model.v (tied by execution only)',
@@ -120,6 +121,8 @@ def classify(cls, where, deck):
         return 'fill_array_surplus_tr'
     if cls == 'lattice_trailing':
         return 'lattice_trailing_range_unchecked'
+    if cls == 'facet_range_skipped':
+        return 'facet_unchecked_in_skipped_cell'
     if cls == 'facet_zero':
         return 'facet_zero_selects_last'
     return None
@@ -147,6 +150,9 @@ WITNESSES = {
         't\n1 0 -1 2 u=1 lat=1 fill=0:0 0:0 0:1 2 2 imp:n=1\n'
         '2 0 -5 fill=1 imp:n=1\n3 0 -6 u=2 imp:n=1\n4 0 5 imp:n=0\n\n'
         '1 px 1\n2 px -1\n5 so 10\n6 so 0.5\n\n', []),
+    'facet_unchecked_in_skipped_cell': (
+        't\n1 0 -1 imp:n=1\n2 0 1 -2.9 imp:n=0\n3 0 2 imp:n=0\n\n'
+        '1 so 1\n2 rcc 0 0 0 0 0 5 3\n\n', []),
     'facet_zero_selects_last': (
         't\n1 0 -1.0 imp:n=1\n2 0 1 imp:n=0\n\n1 rcc 0 0 0 0 0 2 1\n\n', []),
 }
